@@ -164,7 +164,8 @@ def r2(ctx: Ctx, rep: Report, fams):
         if not isinstance(n, ast.Call):
             continue
         try:
-            t = sym0.lin(n).single_term()
+            from ..astutil import inline_pure_calls
+            t = sym0.lin(inline_pure_calls(ctx.res, fn, n)).single_term()       # (the word may be read by a small helper)
         except Exception:
             t = None
         cands = []
